@@ -1,7 +1,7 @@
 """C12 - see DESIGN 7.11 / 7.12 (shared history enumerator in harness/history.py)."""
 ID = 'C12'
 LEVEL = 'other'
-TARGETS = []
+TARGETS = ['selfies/bond_constraints.py::get_preset_constraints', 'selfies/bond_constraints.py::get_semantic_constraints', 'selfies/bond_constraints.py::set_semantic_constraints', 'selfies/bond_constraints.py::get_bonding_capacity']
 EXPLANATION = (
     "BOUNDED stand-in (not counted as proved) plus every deductive clause listed in coverage.clauses: enumerated "
     "histories of public API calls (constraint updates valid and invalid, caller-side mutation of every object the "
